@@ -340,6 +340,32 @@ def check_dt0_order2(ctx, variant, lits, it):
             what=f"dt0 of a second-order problem returned {r!r}, model ({op}) gives {expected!r}: relative deviation {dev:.3e}")
 
 
+def check_under_jit_vmap(ctx):
+    """both helpers traced (jit) and batched over an ensemble of initial values (vmap) return what the eager calls return
+    (seeded change C18-s8: a Python builtin inside the traced branch)"""
+    import jax
+    import jax.numpy as jnp
+    from probdiffeq import ivpsolve, probdiffeq
+
+    vf = probdiffeq.ode(lambda y, /, *, t: -0.5 * y + t)
+    U = jnp.asarray([[0.5, -1.0], [2.0, 0.25], [0.0, 0.0], [1e-9, 3.0]])
+    f_a = lambda u: ivpsolve.dt0_adaptive(vf, (u,), 0.25, error_contraction_rate=3, rtol=1e-3, atol=1e-5)  # noqa: E731
+    f_0 = lambda u: ivpsolve.dt0(vf, (u,), t=0.25)  # noqa: E731
+    for name, f in (("dt0_adaptive", f_a), ("dt0", f_0)):
+        eager = np.array([float(f(u)) for u in U])
+        case = {"helper": name, "mode": "jit / vmap vs eager", "u0": np.asarray(U).tolist(), "eager": eager.tolist()}
+        ctx.case(case)
+        ctx.count("jit/vmap")
+        for mode, g in (("jit", lambda: np.array([float(jax.jit(f)(u)) for u in U])), ("vmap", lambda: np.asarray(jax.vmap(f)(U), dtype=np.float64))):
+            try:
+                got = g()
+            except Exception as e:  # noqa: BLE001
+                ctx.violation(f"{name}:{mode}:raised", f"{name} under {mode} raised {type(e).__name__}: {str(e)[:200]}", dict(case, mode=mode))
+                continue
+            dev = float(np.max(np.abs(got - eager) / np.abs(eager)))
+            ctx.dev(f"{name}.{mode}-vs-eager", dev, 1e-12, case=dict(case, mode=mode, got=got.tolist()), sig=f"{name}:{mode}:value", what=f"{name} under {mode} differs from the eager call by {dev:.2e}")
+
+
 # ------------------------------------------------------------------------------------------------
 # dt0_adaptive
 
@@ -556,6 +582,7 @@ def run(ctx):
         "'mostly copied') scale all three, HNW with an RMS norm. The theorem dt0_adaptive_is_hnw is about the two-stage algorithm with the norms as inputs."
     )
     corpus(ctx, variant, lits)
+    check_under_jit_vmap(ctx)
 
     rng = ctx.rng
     n = ctx.n(260, 4000)
